@@ -46,6 +46,8 @@ static std::vector<Payload> parse_args(const std::string &f)
     return out;
 }
 
+static char g_arena[1 << 17];   // one address for the re-reads of every case
+
 static bool reserved(char t) { return strchr("isbfhtdSrmc", t) && t; }
 
 // owns the C strings / blobs the rtosc_arg_t array points to
@@ -210,7 +212,19 @@ static void do_msg(const std::vector<std::string> &f)
         if(ra == r && !memcmp(C.p, B.p, need)) o << " A=same";
         else o << " A=" << ra << ":" << hex(C.p, need);
     }
-    if(r) dump_accessors(o, (const char*)B.p, 0);
+    if(r) {
+        // every accessor first on the arena all cases share, then on the exact block
+        std::ostringstream a0, a1;
+        bool arena = need + 4 <= sizeof g_arena;
+        if(arena) {
+            memcpy(g_arena, B.p, need); memset(g_arena + need, 0, 4);
+            dump_accessors(a1, g_arena, 0);
+        }
+        dump_accessors(a0, (const char*)B.p, 0);
+        o << a0.str();
+        if(arena && (a0.str() != a1.str() || rtosc_message_length(g_arena, need) != need))
+            o << " SAME-ADDRESS-READ=" << a1.str();
+    }
     puts(o.str().c_str());
 }
 
@@ -349,6 +363,19 @@ static std::vector<uint8_t> build(const Node &n, std::ostringstream &o)
     ExactBuf B(ex);
     size_t r = call_bundle((char*)B.p, total, n.tt, e);
     const char *buf = (const char*)B.p;
+    // the very first element access of this bundle is made on the shared arena
+    // (whose previous content was the previous bundle, last read far from the front)
+    long arena_first = -2; size_t arena_first_i = 0;
+    if(r && r + 4 <= sizeof g_arena) {
+        memcpy(g_arena, buf, r);
+        memset(g_arena + r, 0, 4);
+        size_t c0 = rtosc_bundle_elements(g_arena, r);
+        if(c0) {
+            arena_first_i = c0 - 1;
+            const char *p = rtosc_bundle_fetch(g_arena, arena_first_i);
+            arena_first = p ? p - g_arena : -1;
+        }
+    }
     o << "[r=" << r << " p=" << rtosc_bundle_p(buf) << " n=" << rtosc_bundle_elements(buf, r)
       << " tt=" << rtosc_bundle_timetag(buf) << " L=" << rtosc_message_length(buf, r) << " e=";
     size_t cnt = rtosc_bundle_elements(buf, r);
@@ -358,7 +385,34 @@ static std::vector<uint8_t> build(const Node &n, std::ostringstream &o)
         o << (p ? p - buf : -1) << ":" << rtosc_bundle_size(buf, i);
     }
     if(!cnt) o << "-";
-    o << " b=" << hex(buf, r) << "]" << sub.str();
+    o << " b=" << hex(buf, r);
+    // the same bytes once more at an address every case shares (a result may
+    // depend on the bytes only, not on what was read there before), elements
+    // asked for in reverse order
+    if(r && r + 4 <= sizeof g_arena) {
+        memcpy(g_arena, buf, r);
+        memset(g_arena + r, 0, 4);
+        // (no read of another buffer in between; last an element far from the front)
+        std::vector<long> off0(cnt); std::vector<size_t> sz0(cnt);
+        for(size_t i = 0; i < cnt; ++i) {
+            const char *p0 = rtosc_bundle_fetch(buf, i);
+            off0[i] = p0 ? p0 - buf : -1; sz0[i] = rtosc_bundle_size(buf, i);
+        }
+        if(arena_first != -2 && arena_first_i < cnt && arena_first != off0[arena_first_i])
+            o << " SAME-ADDRESS-FIRST-READ:e" << arena_first_i << "=" << arena_first;
+        for(size_t pass = 0; pass < 2; ++pass)
+            for(size_t j = 0; j < cnt; ++j) {
+                size_t i = pass ? j : cnt - 1 - j;
+                const char *p1 = rtosc_bundle_fetch(g_arena, i);
+                long o1 = p1 ? p1 - g_arena : -1;
+                if(o1 != off0[i] || rtosc_bundle_size(g_arena, i) != sz0[i])
+                    o << " SAME-ADDRESS-REREAD:e" << i << "=" << o1 << ":" << rtosc_bundle_size(g_arena, i);
+            }
+        if(rtosc_bundle_elements(g_arena, r) != cnt || rtosc_message_length(g_arena, r) != rtosc_message_length(buf, r)
+           || rtosc_bundle_timetag(g_arena) != rtosc_bundle_timetag(buf))
+            o << " SAME-ADDRESS-REREAD:header";
+    }
+    o << "]" << sub.str();
     return std::vector<uint8_t>(B.p, B.p + r);
 }
 
@@ -506,7 +560,18 @@ static void do_raw(const std::vector<std::string> &f)
     alarm(0);
     std::ostringstream o;
     o << "L=" << L << " V=" << (v ? 1 : 0);
-    if(v) dump_accessors(o, msg, n);
+    if(v) {
+        std::ostringstream a0, a1;
+        bool arena = n + 4 <= sizeof g_arena;
+        if(arena) {
+            memcpy(g_arena, msg, n); memset(g_arena + n, 0, 4);
+            dump_accessors(a1, g_arena, n);
+        }
+        dump_accessors(a0, msg, n);
+        o << a0.str();
+        if(arena && (a0.str() != a1.str() || rtosc_message_length(g_arena, n) != L || !rtosc_valid_message_p(g_arena, n)))
+            o << " SAME-ADDRESS-READ=" << a1.str();
+    }
     puts(o.str().c_str());
 }
 
